@@ -661,18 +661,15 @@ theorem variants_visit (cfg : Cfg) (env : Env) (f : Nat) (it : Item) :
           simp only [hskip', Bool.false_eq_true, ↓reduceIte, refNamesL, List.mem_append]
           rw [this]
 
-/-- **every monomorphic item of the fragment: `dependencies()` visits exactly the names the declaration mentions** -/
-theorem item_visit (cfg : Cfg) (env : Env) (it : Item) (f : Nat) (body : Ts)
-    (hfind : env.find it.name = some it) (hg : it.generics = [])
+/-- the recorded dependencies of an item without type parameters visit exactly the names its body mentions (no demand that the
+item is one of the program: it may be the instance of a generic one) -/
+theorem itemDeps_visit (cfg : Cfg) (env : Env) (it : Item) (f : Nat) (body : Ts) (hg : it.generics = [])
     (hta : it.attr.typeAs = none) (hto : it.attr.typeOverride = none)
     (hv : ∀ v ∈ it.variants, v.attr.typeAs = none ∧ v.attr.typeOverride = none)
     (hp : ∀ fld ∈ it.fields, PlainField env f fld) (hpv : ∀ v ∈ it.variants, ∀ fld ∈ v.fields, PlainField env f fld)
     (hb : itemBody cfg env it = some body) :
-    ∀ n, n ∈ idents (visitDeps env (f + 1) (.named it.name [])) ↔ n ∈ refNames body := by
+    ∀ n, n ∈ idents ((itemDeps it).flatMap (visitDep env f [])) ↔ n ∈ refNames body := by
   intro n
-  rw [visitDeps_named env f it.name [] it hfind, idents_dedup]
-  have hσ : bindArgs it [] = [] := by simp [bindArgs, hg]
-  rw [hσ]
   by_cases hen : it.isEnum = true
   · have hdeps : itemDeps it = enumDeps it it.variants := by
       simp only [itemDeps, hen, ↓reduceIte, hta, hto, hg, List.flatMap_nil, List.append_nil, enumDeps]
@@ -708,5 +705,19 @@ theorem item_visit (cfg : Cfg) (env : Env) (it : Item) (f : Nat) (body : Ts)
     rw [hdeps]
     simp only [itemBody, hen', Bool.false_eq_true, ↓reduceIte] at hb
     exact body_visit cfg env f it.attr.renameAll it.attr.optionalFields it.attr.tag (tsName it) it.shape it.fields body hp hb n
+
+/-- **every monomorphic item of the fragment: `dependencies()` visits exactly the names the declaration mentions** -/
+theorem item_visit (cfg : Cfg) (env : Env) (it : Item) (f : Nat) (body : Ts)
+    (hfind : env.find it.name = some it) (hg : it.generics = [])
+    (hta : it.attr.typeAs = none) (hto : it.attr.typeOverride = none)
+    (hv : ∀ v ∈ it.variants, v.attr.typeAs = none ∧ v.attr.typeOverride = none)
+    (hp : ∀ fld ∈ it.fields, PlainField env f fld) (hpv : ∀ v ∈ it.variants, ∀ fld ∈ v.fields, PlainField env f fld)
+    (hb : itemBody cfg env it = some body) :
+    ∀ n, n ∈ idents (visitDeps env (f + 1) (.named it.name [])) ↔ n ∈ refNames body := by
+  intro n
+  rw [visitDeps_named env f it.name [] it hfind, idents_dedup]
+  have hσ : bindArgs it [] = [] := by simp [bindArgs, hg]
+  rw [hσ]
+  exact itemDeps_visit cfg env it f body hg hta hto hv hp hpv hb n
 
 end TsRs
